@@ -41,6 +41,7 @@ type AsyncScn struct {
 	Style      Style     `json:"style"`
 	Clock      []int     `json:"clock,omitempty"`     // simulated time the scheduler may let pass, in ms per decision
 	RotMs      int       `json:"rotation_ms,omitempty"` // RollingFile kind: rotation interval
+	DefaultSize bool     `json:"default_size,omitempty"` // the bufferSize attribute is omitted: the declared default (10000) applies
 	Cycle      bool      `json:"cycle,omitempty"`     // C12: Refresh, Destroy, Refresh again; the handle of the first life is used
 	Handles    int       `json:"handles,omitempty"` // C12: extra GetLogger calls for the same name
 	BadHandle  bool      `json:"bad_handle,omitempty"`
@@ -179,6 +180,9 @@ func buildAsync(x *Exec, s *AsyncScn) *asyncSys {
 		lg := LogSpec{Name: "alog", Type: s.Kind, Tags: []string{"_app_*"}, Level: s.Level, Layout: s.LLayout}
 		if s.Kind == "AsyncLogger" {
 			lg.BufferSize, lg.Policy = s.BufferSize, s.Policy
+			if s.DefaultSize {
+				lg.BufferSize = 0 // not written: default
+			}
 		}
 		for i, r := range s.Refs {
 			spec.Apps = append(spec.Apps, AppSpec{Name: fmt.Sprintf("rec%d", i), Type: "Rec"})
